@@ -253,8 +253,12 @@ def run_engine(run, binary, exe, filters, flavour='n', scale=None, timeout=None,
     log('  %s [%s] finished in %.1fs' % (binary, flavour, time.time() - t_run))
     sys.stderr.write(''.join(l + '\n' for l in p.stderr.splitlines() if l.startswith('[engine]')))
     if os.path.exists(out):
+        n0 = len(run.fails)
         run.merge_engine_result(out, binary, flavour)
         os.remove(out)
+        keep = ('VERIF_SEED', 'VERIF_SCALE', 'VERIF_SHARD', 'VERIF_SKIP', 'VERIF_MAXN', 'VERIF_FACTORS')
+        for f in run.fails[n0:]:
+            if f['kind'] == 'engine': f['rerun'] = dict(tier=run.tier, filters=list(filters), env={k: env[k] for k in keep if k in env})
     if p.returncode not in (0, 1) or not p.stdout.strip() and p.returncode == 1:
         # crash / sanitizer abort: attribute to the current case
         m = re.search(r'^CRASH sub=(\S+) case=(.*)$', p.stdout, re.M)
@@ -279,6 +283,23 @@ def replay_engine(exe, f, flavour='n'):
     p = subprocess.run([exe, 'replay', f['check'], f['case']], stdout=subprocess.PIPE, stderr=subprocess.PIPE, text=True, errors='replace', env=env)
     return p.returncode != 0, (p.stdout.strip().splitlines() or [''])[-1] if p.returncode in (0, 1) else 'died with exit %s: %s' % (p.returncode, summarise_crash(p.stderr))
 
+def replay_engine_sequence(exe, f, flavour='n'):
+    """Re-runs the deterministic engine run in which `f` was found (same seed, filters, scale, shard) and reports whether the very same case fails again.
+    For failures that do not reproduce from the single case: state carried between calls inside the library (a cache, a function-local static)."""
+    rr = f.get('rerun')
+    if not rr: return False
+    out = os.path.join(tree_dir(), 'rerun.%d.%s.json' % (os.getpid(), sha(f['check'], f['case'])[:8]))
+    env = dict(os.environ, VERIF_OUT=out); env.update(rr['env'])
+    if flavour == 's':
+        env['ASAN_OPTIONS'] = 'detect_leaks=0:abort_on_error=0:exitcode=97:allocator_may_return_null=1'; env['UBSAN_OPTIONS'] = 'print_stacktrace=1:halt_on_error=1:exitcode=98'
+    subprocess.run([exe, 'run', rr['tier']] + rr['filters'], stdout=subprocess.PIPE, stderr=subprocess.PIPE, env=env)
+    hit = False
+    if os.path.exists(out):
+        try: hit = any(x['check'] == f['check'] and x['case'] == f['case'] for x in json.load(open(out)).get('fails', []))
+        except Exception: hit = False
+        os.remove(out)
+    return hit
+
 def out_root():
     """evidence/ and replays/ live in /verif for the real tree, next to the build output for scratch trees (mutation audit)"""
     return VERIF if os.path.realpath(REPO) == '/repo' else tree_dir()
@@ -296,7 +317,7 @@ def finish(run, level='exploration', extra_cov=None):
     """Replays failures, prints VIOLATION / KNOWN-FINDING lines, writes the evidence file, returns the exit code."""
     known = [k for k in known_findings() if k['property'] == run.prop]
     violations = 0; harness_errors = 0
-    exes = {}
+    exes = {}; seq_budget = [3]
     printed = set()
     for f in run.fails:
         if f['kind'] == 'harness':
@@ -316,9 +337,19 @@ def finish(run, level='exploration', extra_cov=None):
             n = sum(1 for r in reps if r[0])
             f['replayed'] = '%d/3' % n
             if n < 3:
-                run.notes.append('failure did not reproduce 3/3 outside the PBT library (%d/3) and is not reported: %s %s' % (n, f['check'], f['msg']))
-                print('NOTE flaky failure not reported (%d/3): %s %s' % (n, f['check'], f['msg']))
-                continue
+                # not a function of the case alone.  Before discarding it as flaky: the engine run is deterministic, so a failure caused by state that the library
+                # carries from earlier calls comes back when the same run is repeated (checked for at most 3 such failures per check run)
+                seq = 0
+                if f.get('rerun') and seq_budget[0] > 0:
+                    seq_budget[0] -= 1
+                    seq = sum(1 for _ in range(2) if replay_engine_sequence(exes[key], f, f['flavour']))
+                if seq == 2:
+                    f['kind'] = 'engine-seq'; f['replayed'] = '%d/3 as a single case, 2/2 within the deterministic run it was found in' % n
+                    f['msg'] += '  [does not fail as a single case in a fresh process: the outcome depends on earlier calls in the same process - state carried inside the library]'
+                else:
+                    run.notes.append('failure did not reproduce 3/3 outside the PBT library (%d/3) and is not reported: %s %s' % (n, f['check'], f['msg']))
+                    print('NOTE flaky failure not reported (%d/3): %s %s' % (n, f['check'], f['msg']))
+                    continue
         path = write_replay(run.prop, f)
         print('VIOLATION property=%s replay=%s' % (run.prop, path))
         print('  ' + (f.get('check', f.get('kind', '')) + ': ' + f.get('msg', ''))[:1500])
@@ -410,7 +441,16 @@ def run_symx(run, prop, intro_exe):
     for v in r['violations']:
         run.fails.append(dict(kind='symx', symx_property=prop, key=v['key'], msg=v['what'], detail=v))
 
+class FactorsError(Exception):
+    pass
+
 def factors_file(intro_exe):
+    try:
+        return _factors_file(intro_exe)
+    except (subprocess.CalledProcessError, RuntimeError, OSError, ValueError) as e:
+        raise FactorsError('the table dump of this tree could not be turned into conversion factors: %s' % str(e)[:300])
+
+def _factors_file(intro_exe):
     intro = intro_path(intro_exe)
     if not os.path.exists(intro):
         p = subprocess.run([intro_exe], stdout=subprocess.PIPE)
@@ -433,6 +473,15 @@ def replay(path):
         n = sum(1 for r in res if r[0])
         print('replay %s: fails %d/3: %s' % (f['check'], n, res[0][1]))
         if n == 3:
+            print('VIOLATION property=%s replay=%s' % (prop, path)); return 1
+        return 0
+    if f['kind'] == 'engine-seq':
+        exe = build([f['binary']], f.get('flavour', 'n'))[f['binary']]
+        if f['rerun']['env'].get('VERIF_FACTORS'):
+            f['rerun']['env']['VERIF_FACTORS'] = factors_file(build(['introspect'])['introspect'])
+        n = sum(1 for _ in range(2) if replay_engine_sequence(exe, f, f.get('flavour', 'n')))
+        print('replay %s within its deterministic run: fails %d/2' % (f['check'], n))
+        if n == 2:
             print('VIOLATION property=%s replay=%s' % (prop, path)); return 1
         return 0
     if f['kind'] == 'symx':
@@ -466,5 +515,9 @@ def main(argv):
     if len(argv) != 2 or argv[0] not in checks.PLANS or argv[1] not in ('quick', 'thorough'):
         print('usage: check <C01..C20> <quick|thorough> | --replay <file> | --build [flavour] [binaries]'); return 2
     run = Run(argv[0], argv[1])
-    level = checks.PLANS[argv[0]](run) or 'exploration'
+    try:
+        level = checks.PLANS[argv[0]](run) or 'exploration'
+    except FactorsError as e:
+        # whatever the plan found before this point is still reported (a violation takes precedence over the harness error)
+        run.fails.append(dict(kind='harness', key='factors', msg=str(e))); level = 'exploration'
     return finish(run, level if isinstance(level, str) else 'exploration')
